@@ -14,7 +14,7 @@ theorem T14_fn_get_result (k : GenFn.IoKind_kind) (res : Int) (errno : Nat) :
     GenFn.io_get_result k res (decide (errno = IoPool.EINTR)) =
       some (GenFnCheck.verdictGen (IoPool.getResult (decide (k = .Read)) res errno)) := GenFnCheck.io_get_result_eq k res errno
 
-/-- T14.const `MAX_IO_ATTEMPTS` of the current source is the bound of `T14_execute_bounded` / `T14_pool_*` (and positive: at least one attempt) -/
+/-- T14.const `MAX_IO_ATTEMPTS` of the current source is the bound of `T14_execute_spec` / `T14_io_exactly_once` (and positive: at least one attempt) -/
 theorem T14_const_max_io_attempts : Gen.MAX_IO_ATTEMPTS = IoPool.MAX_IO_ATTEMPTS ∧ 0 < Gen.MAX_IO_ATTEMPTS := by decide
 
 example : GenFn.io_get_result .Read 0 false = some .Ok ∧ GenFn.io_get_result .Write 0 false = some .Retry ∧
